@@ -36,6 +36,10 @@ def main():
         checks = sys.argv[sys.argv.index("--checks") + 1].split(",")
     patch = os.path.join(mdir, "patch.diff")
     demo = os.path.join(mdir, "demo.py")
+    if os.path.abspath(mdir) == os.path.abspath(os.path.join(VERIF, "seeded", sid)) and os.path.exists(os.path.join(mdir, "meta.json")):
+        old = json.load(open(os.path.join(mdir, "meta.json")))
+        if "--checks" not in sys.argv and old.get("checks_quick"):
+            checks = list(old["checks_quick"])
     meta = {"property": prop, "source_dir": mdir, "when": time.strftime("%Y-%m-%d %H:%M:%S")}
     wt = "/tmp/mutcheck_%d" % os.getpid()
     sh(["git", "-C", "/repo", "worktree", "add", "-q", "--detach", wt, "HEAD"])
@@ -92,7 +96,7 @@ def main():
     out_dir = os.path.join(VERIF, "seeded", sid)
     os.makedirs(out_dir, exist_ok=True)
     for f in ("patch.diff", "demo.py", "notes.md"):
-        if os.path.exists(os.path.join(mdir, f)):
+        if os.path.exists(os.path.join(mdir, f)) and os.path.abspath(mdir) != os.path.abspath(out_dir):
             shutil.copy(os.path.join(mdir, f), os.path.join(out_dir, f))
     meta["what_it_needs_to_manifest"] = "see notes.md (written by the independent sub-agent that produced the change)"
     meta["what_was_run"] = ("scratch worktree: demo without/with the change, full pytest suite with the change; then `git -C /repo apply patch.diff`, "
